@@ -4,9 +4,11 @@ package durablestream
 // handler over its in-memory storage behind httptest.
 
 import (
+	"io"
 	"net/http"
 	"net/http/httptest"
 	"regexp"
+	"strings"
 
 	dsl "github.com/ahimsalabs/durable-streams-go/durablestream"
 	"github.com/ahimsalabs/durable-streams-go/durablestream/memorystorage"
@@ -20,7 +22,8 @@ var (
 
 	vmDSFailAppend = -1 // index of the append request answered with 503
 	vmDSAppends    = 0
-	vmDSLostAck    = -1 // index of the append request that is carried out but answered with 502
+	vmDSForeign    = false // another writer appends one message right before the rejected append arrives
+	vmDSLostAck    = -1    // index of the append request that is carried out but answered with 502
 )
 
 var vdsIssued = regexp.MustCompile(`^([0-9]{10}|-1|)$`)
@@ -39,6 +42,13 @@ func vdsServer(name string) string {
 			i := vmDSAppends
 			vmDSAppends++
 			if i == vmDSFailAppend {
+				if vmDSForeign {
+					other := r.Clone(r.Context())
+					other.Body = io.NopCloser(strings.NewReader(`{"type":"foreign","data":{"n":0}}`))
+					other.ContentLength = -1
+					other.Header.Del("Stream-Seq")
+					handler.ServeHTTP(httptest.NewRecorder(), other)
+				}
 				http.Error(w, "service unavailable", http.StatusServiceUnavailable)
 				return
 			}
